@@ -10,7 +10,10 @@ package resolver
 // slow (UpdateState blocks until released). Ops: push a route configuration,
 // start an RPC (SelectConfig), commit an RPC (OnCommitted, optionally twice),
 // hold/release the channel. Every event goes into one totally ordered log; the
-// oracle replays the log.
+// oracle replays the log against the (service config, config selector) PAIR the
+// channel holds (vfC51CheckLog). Routes may use cluster specifier plugins and a
+// tracking HTTP filter observes interceptor lifetime (verif_c51_csp_test.go, which
+// also holds the second unit "plugins").
 //
 // Waits for the management-server round trip use real time; a timed-out wait
 // makes the case inconclusive (Discard), never a violation.
